@@ -214,17 +214,17 @@ static std::string exec(const std::vector<std::string>& t) {
         return "d=" + public_dump(g_url[d]) + " s=" + public_dump(g_url[s]);
     }
     if (op == "ipv4" && t.size() == 2) {
-        const std::string s = mk<std::string>(parse_units(t[1]));
+        const std::u32string s = mk<std::u32string>(parse_units(t[1]));
         uint32_t v = 0;
         return upa::ipv4_parse(s.data(), s.data() + s.size(), v) == upa::validation_errc::ok ? std::to_string(v) : std::string("F");
     }
     if (op == "ends" && t.size() == 2) {
-        const std::string s = mk<std::string>(parse_units(t[1]));
+        const std::u32string s = mk<std::u32string>(parse_units(t[1]));
         return upa::hostname_ends_in_a_number(s.data(), s.data() + s.size()) ? "1" : "0";
     }
     if (op == "ipv4ser" && t.size() == 2) { std::string out; upa::ipv4_serialize(static_cast<uint32_t>(std::strtoul(t[1].c_str(), nullptr, 10)), out); return hx(out); }
     if (op == "ipv6" && t.size() == 2) {
-        const std::string s = mk<std::string>(parse_units(t[1]));
+        const std::u32string s = mk<std::u32string>(parse_units(t[1]));
         uint16_t a[8];
         if (upa::ipv6_parse(s.data(), s.data() + s.size(), a) != upa::validation_errc::ok) return "F";
         std::string r;
